@@ -1983,5 +1983,7 @@ func Compile(chunk []ast.Stmt, name string) (proto *FunctionProto, err error) { 
 	context := newFuncContext(name, nil)
 	compileFunctionExpr(context, funcexpr, ecnone(0))
 	proto = context.Proto
+	// the main function of a chunk is defined nowhere: linedefined and lastlinedefined are 0 as in luaY_parser
+	proto.LastLineDefined = 0
 	return
 } // }}}
